@@ -29,7 +29,7 @@ ZOO = [VInf, VNegInf, VNan, VFloat(200000), VInt(2000), VInt(-2000), VInt(3000),
       [VObj(c, [], []) for c in ("tuple0", "tuple12", "set1", "frozenset1", "bytearray_ab", "Decimal1",
                                  "Fraction12", "complex1", "range3", "object_a", "uuidlike", "type_int",
                                  "notimplemented", "set_mixed", "frozenset_mixed", "generator", "lock",
-                                 "uncopyable")] + \
+                                 "uncopyable", "tuple_with_list")] + \
       [VObj("MyInt", ["int"], [VInt(1)]), VObj("MyFloat", ["float"], [VFloat(25)]),
        VObj("MyStr", ["str"], [VStr([97, 98])]), VObj("MyBytes", ["bytes"], [VBytes([97])]),
        VObj("MyList", ["list"], [VList([VInt(1)])]),
@@ -80,7 +80,10 @@ def local(v):
     elif k == "uuid":
         out += [{"k": "uuid", "ver": v["ver"], "id": v["id"] + 1}, {"k": "uuid", "ver": 1, "id": v["id"]}]
     elif k == "datetime":
-        out += [{"k": "datetime", "dt": v["dt"] + 1}, {"k": "date", "d": v["dt"]}]
+        n = v["dt"] % 1000
+        out += [{"k": "datetime", "dt": v["dt"] + 1}, {"k": "date", "d": n}]
+        # the same wall-clock reading, naive / UTC / +03:00 (code -> spec only: three different values)
+        out += [{"k": "datetime", "dt": base + n} for base in (0, 1000, 2000) if base + n != v["dt"]]
     elif k == "date":
         out += [{"k": "date", "d": v["d"] + 1}, {"k": "datetime", "dt": v["d"]}]
     return out
